@@ -145,20 +145,25 @@ class C10(Prop):
         "input lists contain distinct event objects (no object twice)",
     ]
     ASSUMPTIONS = [
+        "timestamps of Event objects are whole milliseconds (Event's constructor floors them); cases carry such timestamps",
         "C10 quantifies over non-overlapping inputs with distinct timestamps, durations >= 0, pulsetime >= 0; "
         "overlapping / equal-timestamp / negative-duration / negative-pulsetime inputs are used for the "
         "model-code correspondence only and are not judged by the oracle",
     ]
     LEVEL_TEXT = (
-        "Machine-checked Lean 4 theorems (out_nonoverlap_positive, cover_iff, label_monotone for inputs in any order, "
-        "and their sorted-chain forms) for all non-overlapping event lists with distinct timestamps and all "
-        "integer-microsecond pulsetimes >= 0, over a branch-for-branch model of flood.py (deep copy, stable sort, "
-        "pair sweep with the mutated neighbour carried along, six branches incl. negative gaps, final filter); "
-        "the model is compared with the real function on exhaustive grids and random chains on every run"
+        "Machine-checked Lean 4 theorems over a branch-for-branch model of flood.py (value copy, stable sort, pair sweep "
+        "with the mutated neighbour carried along, six branches incl. negative gaps, Event's millisecond-flooring "
+        "timestamp setter, final filter), for inputs in any order and all integer-microsecond pulsetimes >= 0: "
+        "label_monotone, input_time_covered, out_positive in full; out_nonoverlap_positive_partial and cover_iff_partial "
+        "under the extra hypothesis that all durations are whole milliseconds; the full statements are refuted on the "
+        "model by concrete witnesses (out_nonoverlap_positive_refuted, cover_iff_refuted), reproduced on the real code "
+        "(known finding submillisecond-duration); the model is compared with the real function on exhaustive grids, "
+        "boundary cases and random chains on every run"
     )
     LEVEL_NOTE = (
         "trusts: Lean kernel + 3 standard axioms; model-code tie is differential (exhaustive grids + boundary + random); "
-        "input_preserved is observed on the real code (value and identity), not proved"
+        "input_preserved is observed on the real code (value and identity), not proved; two of three statements are "
+        "proved only for whole-millisecond durations (open finding outside)"
     )
     TECHNIQUE = "Lean 4 proof over executable model + differential correspondence check"
     RULE = (
